@@ -23,7 +23,7 @@ package vm
 //@   ensures sameKeys(m.Balances, old(m.Balances))
 
 //@ func (m *Machine) withdrawAlways(account machine.AccountAddress, mon machine.Monetary) (f *machine.Funding, err error)
-//@   property C22 C23
+//@   property C22 C23 C27
 //@   requires wfBal(m.Balances)
 //@   modifies m
 //@   ensures unchangedExcept(m, old(m), Balances) && wfBal(m.Balances)
@@ -34,7 +34,7 @@ package vm
 //@   ensures sameKeys(m.Balances, old(m.Balances))
 
 //@ func (m *Machine) credit(account machine.AccountAddress, funding machine.Funding)
-//@   property C22 C23
+//@   property C22 C23 C27
 //@   requires wfBal(m.Balances)
 //@   modifies m
 //@   ensures unchangedExcept(m, old(m), Balances) && wfBal(m.Balances)
@@ -51,7 +51,7 @@ package vm
 //@     invariant sameKeys(m.Balances, old(m.Balances))
 
 //@ func (m *Machine) repay(funding machine.Funding)
-//@   property C22 C23
+//@   property C22 C23 C27
 //@   requires wfBal(m.Balances)
 //@   modifies m
 //@   ensures unchangedExcept(m, old(m), Balances) && wfBal(m.Balances)
